@@ -273,6 +273,15 @@ def build_table(ctx, rng):
         ("empty sensors", (0, 2, 0, 2, 3, 3, np.array([], dtype=int)), "E:ValueError", "vrule boxguard 0 1 0 2 0 2 1 1"),
         ("float sensors", (0, 2, 0, 2, 3, 3, sens.astype(float)), "E:ValueError", "vrule boxguard 9 0 0 2 0 2 1 1"),
         ("valid", (0, 2, 0, 2, 3, 3, sens), None, "vrule boxguard 9 1 0 2 0 2 1 1"),
+        # the same contradictory bounds as other code hands them over: elements of an unsigned / narrow bounding-box array, floats,
+        # one numpy scalar mixed with a Python int (a difference of unsigned integers wraps around instead of going negative)
+        ("x_min>x_max uint8", (np.uint8(2), np.uint8(1), np.uint8(0), np.uint8(2), 3, 3, sens), "E:ValueError", "vrule boxguard 9 1 2 1 0 2 1 1"),
+        ("y_min>y_max uint16", (np.uint16(0), np.uint16(2), np.uint16(2), np.uint16(1), 3, 3, sens), "E:ValueError", "vrule boxguard 9 1 0 2 2 1 1 1"),
+        ("x_min>x_max uint64 vs int", (np.uint64(2), 1, 0, 2, 3, 3, sens), "E:ValueError", "vrule boxguard 9 1 2 1 0 2 1 1"),
+        ("y_min==y_max uint32", (0, 2, np.uint32(1), np.uint32(1), 3, 3, sens), "E:ValueError", "vrule boxguard 9 1 0 2 1 1 1 1"),
+        ("x_min>x_max float", (2.5, 1.5, 0.0, 2.0, 3, 3, sens), "E:ValueError", None),
+        ("x_min>x_max int8", (np.int8(2), np.int8(1), 0, 2, 3, 3, sens), "E:ValueError", "vrule boxguard 9 1 2 1 0 2 1 1"),
+        ("valid uint8", (np.uint8(0), np.uint8(2), np.uint8(0), np.uint8(2), 3, 3, sens), None, "vrule boxguard 9 1 0 2 0 2 1 1"),
     ):
         T.add(f"box({desc})", outcome(lambda: U.get_constrained_sensors_indices(*args)), req, lean)
     for desc, arr, sensors, req, lean in (
